@@ -115,6 +115,13 @@ VARIANTS = [
     dict(id="c16-prediction-times-beta", fire=["C16"], file=TMF, old="        return abs(sum(pairwise_probabilities)) / denominator", new="        return abs(sum(pairwise_probabilities)) / denominator * self.beta"),
     dict(id="c16-kappa-new-place", fire=["C16"], file=TMF, old="                delta_mu = (team_i.mu - team_q.mu) / c_iq", new="                delta_mu = (team_i.mu - team_q.mu) / c_iq + self.kappa * team_i.mu"),
     dict(id="c16-silent-square-as-product", silent=["C16", "C19"], all5=True, file=PL, old="        beta_squared = self.beta**2", new="        beta_squared = self.beta * self.beta"),
+    dict(id="c16-shift-softmax-scale", fire=["C16"], file=PL, old="            i_mu_over_c = math.exp(team_i.mu / c)", new="            i_mu_over_c = math.exp(team_i.mu / (2 * self.beta))"),
+    dict(id="c16-shift-half-mu", fire=["C16", "C09"], file=BTF,
+         old="                    (mu_a - mu_b) / math.sqrt(n * self.beta**2 + sigma_a + sigma_b)\n                )\n            )\n\n        return [",
+         new="                    (mu_a - 0.5 * mu_b) / math.sqrt(n * self.beta**2 + sigma_a + sigma_b)\n                )\n            )\n\n        return ["),
+    dict(id="c16-shift-mu-drift", fire=["C16", "C05"], file=TMP, old="                mu += (sigma**2 / team_i.sigma_squared) * i_omega", new="                mu += (sigma**2 / team_i.sigma_squared) * i_omega + 1e-3 * mu"),
+    dict(id="c16-shift-two-scales", fire=["C16", "C07"], file=BTP, old="                    p_iq = 1 / (1 + math.exp((team_q.mu - team_i.mu) / c_iq))",
+         new="                    p_iq = 1 / (1 + math.exp(team_q.mu / c_iq - team_i.mu / (beta * 3)))"),
     # ------------------------------------------------------------------ C09 / C11
     dict(id="c09-asymmetric-scale", fire=["C09"], file=PL,
          old="                    (mu_a - mu_b) / math.sqrt(n * self.beta**2 + sigma_a + sigma_b)\n                )\n            )\n\n        return [",
